@@ -126,6 +126,7 @@ func TestVerifRBMutex(t *testing.T) {
 			}
 			if w == 1 && rd > 0 {
 				tr.viol(fmt.Sprintf("C19: a goroutine holds the RBMutex for writing while %d hold it for reading", rd))
+				tr.viol(fmt.Sprintf("C01: the shard lock admitted a writer together with %d readers: a Get or Range can observe the map while a Set or Delete modifies it", rd))
 			}
 		}
 		finished := func(th *vrbThread) {
